@@ -1,12 +1,14 @@
 """C07 FFT phase screens have exactly the discretised von Karman statistics.
 
-E2 x E1: for every even N in the bound and every (delta, r0, L0, l0) tuple of the lattice, every
-one of the 2 N^2 unit draw vectors (2 N^2 + 54 for the sub-harmonic variant, in call order) is
-injected through a SeqGenerator into ft_phase_screen / ft_sh_phase_screen.  The responses are the
-columns of the operator T (screen <- draws); T T^T is the EXACT ensemble covariance of the screen,
-which is compared with the inverse discrete Fourier sum of the modified von Karman spectrum coded
-from the statement (mc/refmodels/psd.py).  A refinement ladder at fixed physical size decides the
-"approaches the analytic structure function" clause as a bounded surrogate.
+E2 x E1: for every even N in the bound and every (delta, r0, L0, l0) tuple of the lattice, the number nd of
+normals the screen generator consumes is DISCOVERED by a probe call, and every one of the nd unit draw
+vectors is injected through a SeqGenerator into ft_phase_screen / ft_sh_phase_screen.  The responses are the
+columns of the operator T (screen <- draws); T T^T is the EXACT ensemble covariance of the screen, which is
+compared with the inverse discrete Fourier sum of the modified von Karman spectrum coded from the statement
+(mc/refmodels/psd.py).  Nothing is assumed about the order, the request shapes or the number of the draws:
+all verdicts are on Gram matrices (ensemble covariances), on relations the statement makes "for fixed draws"
+(r0 scaling), or on structures that are first identified from the responses of the library under test and
+are "not claimed" (a statistic, never a violation) when they cannot be identified.
 """
 import math
 
@@ -20,35 +22,57 @@ from mc.refmodels import psd, vk_cov
 PROPERTY = "C07"
 LEVEL = "exploration"
 TECHNIQUE = ("bounded exhaustive enumeration (even N x atmosphere tuples x {plain, sub-harmonic}) with basis "
-             "exhaustion over the Gaussian draws: every unit draw vector is injected through a Generator "
-             "double, giving the full response operator T and the exact ensemble covariance T T^T; frequency-by-"
-             "frequency and parameter-ladder cases beyond the full-operator sizes; exhaustive single-preemption "
-             "interleaving of two screen generations at library-line granularity")
+             "exhaustion over the Gaussian draws: the number of normals consumed is discovered by a probe, every "
+             "unit draw vector is injected through a Generator double, giving the full response operator T and the "
+             "exact ensemble covariance T T^T (all verdicts on Gram matrices, none on the position of a draw in the "
+             "stream); frequency-class-by-frequency-class and parameter-ladder cases beyond the full-operator sizes, "
+             "with the draw structure identified from the responses; the integer-seed ensemble through a model of "
+             "numpy.random.default_rng; single-preemption interleaving of two screen generations as an observation")
 RULE = ("cases = {ft, sh} x even N in bound x (delta, r0, L0, l0) tuples, plus one refinement-ladder case per "
-        "rung N at fixed N*delta = 4*L0; every case pushes all 2N^2 (+54) unit draws through the real code; "
+        "rung N at fixed N*delta = 4*L0; every case pushes all consumed unit draws through the real code; "
         "all cases are non-trivial (N = 2 is the smallest even grid)")
 ASSUMPTIONS = [
-    "even N up to the bound and the five-tuple atmosphere lattice; the exact r0^(-5/6) law is verified as an "
-    "exact relation between operators, so the lattice result extends along r0",
-    "the ensemble is the one induced by an injected numpy Generator (draws i.i.d. unit normal); all statements "
-    "about the ensemble follow from T T^T by linearity in the draws, which is tested on the basis",
+    "even N up to the bound and the atmosphere lattice (five general tuples, two with the inner scale above the "
+    "pixel size, an outer-scale ladder 0.01 m ... 1e150 m and infinity at N = 6); the exact r0^(-5/6) law is "
+    "verified as an exact relation between operators, so the lattice result extends along r0",
+    "the ensemble is the one induced by an injected numpy Generator (draws i.i.d. unit normal, requested through "
+    "normal()/standard_normal()); all statements about the ensemble follow from T T^T by linearity in the draws, "
+    "which is tested on the basis; the number of normals is whatever the library consumes (it must only be the "
+    "same on every call of a case); a library that draws through another Generator method is not claimed",
     "'approaches the analytic structure function as the grid is refined' is decided on a finite ladder "
     "N = 8..64 (quick) / 8..128 (thorough) at fixed N*delta = 4*L0: the maximal relative error of D over the "
     "fixed physical offsets (multiples of L0/2 with |dy|,|dx| <= L0, excluding 0) is non-increasing and below "
     "the stated bound (0.05 at N=64, 0.02 at N=128) at the last rung",
     "'closer to the analytic curve at large separations' is decided for every pixel pair at least N/4 pixels "
-    "apart, for configurations with N*delta < L0 (where sub-harmonics are meant to be used)",
-    "tolerance 1e-10 relative (measured <= 1e-15) on the covariance identity; 1e-12 on exact scaling",
-    "with an INTEGER seed ft_sh_phase_screen seeds two generators identically, so its low-frequency draws "
-    "repeat the first 54 high-frequency draws; this is outside a draw-linear statement and recorded as an "
-    "observation, not a verdict",
+    "apart, for every configuration of the lattice (the unchanged library gains at least 1e-4 of D_vK on every "
+    "such pair; the verdict threshold is gain > 0); for L0 > 1e6 N delta the analytic curve is taken in its "
+    "Kolmogorov limit. 'adds low-frequency power' is read as: at least one structure-function value increases",
+    "tolerance 1e-10 relative (measured <= 2e-15) on the covariance identity; 1e-12 on exact scaling (measured "
+    "<= 1e-15)",
+    "integer / None / SeedSequence seeds: numpy.random.default_rng is replaced by a model in which equal seed "
+    "material (same entropy and spawn key) replays the same stream and distinct material (another integer, "
+    "another SeedSequence child, every seed=None call) gets a disjoint stretch of independent normals; the "
+    "covariance over that ensemble must equal the covariance over injected Generator draws. If the library does "
+    "not reach its generators through numpy.random.default_rng (no replayed generator is consumed) the clause is "
+    "not claimed (stat intseed_not_claimed)",
 ]
 ASSUMPTIONS.append(
-    "hfbig cases (N = 130...2048): the full covariance needs all 2 N^2 operator columns and is out of reach there; the "
-    "clause decides the covariance frequency by frequency under the draw layout of the anchored mechanism (draw "
-    "[i, j] of the two N x N normal arrays feeds the coefficient of grid frequency [i, j]); if the library requests "
-    "another layout the clause is not claimed (stat hfbig_layout_changed_not_claimed). The full-operator cases "
+    "hfbig cases (N = 130...2048): the full covariance needs all operator columns and is out of reach there; the "
+    "covariance is decided frequency class by frequency class ({f, -f} on the pixel grid): a set of unit draws is "
+    "pushed through, the frequency each one excites is read off its response (which must be a pure plane wave), a "
+    "dense draw vector on all OTHER draws shows that nothing else excites the probed classes, and the summed "
+    "contribution of a class must be exactly its term of the statement's Fourier sum. A library whose unit "
+    "responses are not plane waves, or whose classes cannot be completed from the probed positions (index [i, j] "
+    "and its mirror [-i, -j] in every N x N block of the stream), is not claimed (stats "
+    "hfbig_structure_not_identified_not_claimed / hfbig_classes_not_claimed). The full-operator cases "
     "(N <= 34) make no such assumption")
+ASSUMPTIONS.append(
+    "shbig cases (N = 130...500): the normals of the plain screen are located inside the stream of the sub-harmonic "
+    "variant by aligning the two request logs, and the alignment is accepted only if the variant with the remaining "
+    "draws zero reproduces the plain screen of the same draws (otherwise: stat shbig_structure_not_identified_"
+    "not_claimed, no verdict). The structure function added by the remaining draws is taken from the library "
+    "(all of them, 3 reference pixels x every pixel, origin- and order-free), that of the plain screen from the "
+    "reference sum, and the 'closer at large separations' clause is decided on them")
 ENGINES = ["E1-product-enumeration", "E2-basis-exhaustion", "E5-environment-answers", "E4-schedule-exploration"]
 
 TOL = 1e-10
@@ -56,9 +80,18 @@ TOL_SCALE = 1e-12
 # (delta, r0, L0, l0)
 TUPLES = [(0.1, 0.2, 25.0, 0.01), (0.5, 0.1, 10.0, 0.05), (0.05, 0.2, 100.0, 0.001),
           (0.25, 0.15, 5.0, 0.1), (1.0, 0.1, 2.0, 0.01)]
+# inner scale above the pixel size (the factor exp(-(f/fm)^2) resolved by the grid: l0/delta = 10 and 5)
+TUPLES_L0_RESOLVED = [(0.001, 0.2, 25.0, 0.01), (0.01, 0.1, 10.0, 0.05)]
+# l0/delta = 100: the factor underflows over most of the frequency plane (N >= 6: at N = 2 every weight is 0)
+TUPLE_UNDERFLOW = (0.01, 0.1, 10.0, 1.0)
+# outer-scale ladder at N = 6, delta = 0.1: below the pixel size ... between the Bessel and the Kolmogorov branch
+L0_LADDER_BOTH = [0.05, 1e3, 1e5, 1e8]
+L0_LADDER_PLAIN = [0.01, 1e150]
 R0_FACTORS = [2.0, 0.37]
 LADDER_L0, LADDER_R0, LADDER_l0 = 2.0, 0.1, 1e-4
 LADDER_BOUND = {64: 0.05, 128: 0.02}
+# refuse to build operators on absurdly many columns (a library that oversamples its draws): not claimed
+MAX_DRAW_FACTOR = 4
 
 
 def _sizes(tier):
@@ -73,44 +106,65 @@ def _ladder(tier):
     return [8, 16, 32, 64] if tier == "quick" else [8, 16, 32, 64, 128]
 
 
+def _shbig_sizes(tier):
+    return (130, 160, 256) if tier == "quick" else (130, 160, 192, 200, 256, 300, 384, 500)
+
+
+def _hfbig_sizes(tier):
+    return (130, 1024) if tier == "quick" else (130, 300, 1024, 1030, 2048)
+
+
+def _intseed_sizes(tier):
+    return (4, 8, 32) if tier == "quick" else (4, 8, 16, 32, 48, 64)
+
+
 def BOUNDS(tier):
     return {"N_plain": _sizes(tier), "N_subharmonic": _sh_sizes(tier),
-            "tuples(delta,r0,L0,l0)": TUPLES, "r0_factors": R0_FACTORS,
+            "tuples(delta,r0,L0,l0)": TUPLES + TUPLES_L0_RESOLVED + [TUPLE_UNDERFLOW],
+            "L0_ladder_at_N=6": L0_LADDER_PLAIN + L0_LADDER_BOTH + ["inf", 1e12, 1e100],
+            "r0_factors": R0_FACTORS,
             "ladder_N": _ladder(tier), "ladder(L0,r0,l0)": [LADDER_L0, LADDER_R0, LADDER_l0],
             "ladder_bound_at_last_rung": LADDER_BOUND[_ladder(tier)[-1]],
+            "N_shbig": list(_shbig_sizes(tier)), "N_hfbig": list(_hfbig_sizes(tier)), "N_sh_contains_plain": [1024],
+            "N_intseed": list(_intseed_sizes(tier)), "N_dc_every_even_N_up_to": 512 if tier == "quick" else 1536,
+            "largest_N": max(_hfbig_sizes(tier)),
             "tolerances": {"covariance_rel": TOL, "scaling_rel": TOL_SCALE}}
+
+
+def _tag(t):
+    return "d=%g,r0=%g,L0=%g,l0=%g" % t
 
 
 def cases(tier):
     for t in TUPLES:
-        tag = "d=%g,r0=%g,L0=%g,l0=%g" % t
+        tag = _tag(t)
         for N in _sizes(tier):
             yield Case("ft:N=%d:%s" % (N, tag), {"kind": "ft", "N": N, "t": t})
         for N in _sh_sizes(tier):
             yield Case("sh:N=%d:%s" % (N, tag), {"kind": "sh", "N": N, "t": t})
     for N in _ladder(tier):
         yield Case("ladder:N=%d" % N, {"kind": "ladder", "N": N})
-    for N in ((4, 8, 32) if tier == "quick" else (4, 8, 16, 32, 48, 64)):      # (band- or block-wise drawing starts at some size)
+    for N in _intseed_sizes(tier):      # (band- or block-wise drawing starts at some size)
         yield Case("intseed:N=%d" % N, {"kind": "intseed", "N": N})
     # boundary values of the outer scale ("all L0"): infinite (pure Kolmogorov) and astronomically large
     for L0 in (float("inf"), 1e12, 1e100):
         t = (0.1, 0.2, L0, 0.01)
-        yield Case("ft:N=6:%s" % ("d=%g,r0=%g,L0=%g,l0=%g" % t), {"kind": "ft", "N": 6, "t": t, "plain_only": True})
-        yield Case("sh:N=6:%s" % ("d=%g,r0=%g,L0=%g,l0=%g" % t), {"kind": "sh", "N": 6, "t": t})
-    # an accelerated transform passed in by the caller (FFT=...) must give the same screens as the default path
+        yield Case("ft:N=6:%s" % _tag(t), {"kind": "ft", "N": 6, "t": t, "plain_only": True})
+        yield Case("sh:N=6:%s" % _tag(t), {"kind": "sh", "N": 6, "t": t})
+    # an accelerated transform passed in by the caller (FFT=...) must give the same ensemble as the default path
     for N in (4, 8):
         yield Case("fftarg:N=%d" % N, {"kind": "fftarg", "N": N})
-    # the zero-frequency clause alone is cheap, so it is decided for EVERY even N up to a much larger bound
+    # the zero-mean clause alone is cheap, so it is decided for EVERY even N up to a much larger bound
     top = 512 if tier == "quick" else 1536
     # the sub-harmonic part for grid sizes far beyond those whose full operator is extracted
-    for N in ((130, 160, 256) if tier == "quick" else (130, 160, 192, 200, 256, 300, 384, 500)):
+    for N in _shbig_sizes(tier):
         yield Case("shbig:N=%d" % N, {"kind": "shbig", "N": N})
     # more plain-screen sizes (full operator): sizes with a large prime factor (26 = 2*13, 34 = 2*17)
     for N in ((26, 34) if tier == "quick" else (26, 34, 38, 46)):
         t = TUPLES[0]
-        yield Case("ft:N=%d:%s" % (N, "d=%g,r0=%g,L0=%g,l0=%g" % t), {"kind": "ft", "N": N, "t": t, "plain_only": True})
-    # the high-frequency part on grids far above the full-operator sizes, frequency by frequency
-    for N in ((130, 1024) if tier == "quick" else (130, 300, 1024, 1030, 2048)):
+        yield Case("ft:N=%d:%s" % (N, _tag(t)), {"kind": "ft", "N": N, "t": t, "plain_only": True})
+    # the high-frequency part on grids far above the full-operator sizes, frequency class by frequency class
+    for N in _hfbig_sizes(tier):
         yield Case("hfbig:N=%d" % N, {"kind": "hfbig", "N": N})
     # amplitude ~ r0^(-5/6) over nine decades of r0, and the other parameters over wide ladders
     for fn in ("ft", "ftsh"):
@@ -118,6 +172,25 @@ def cases(tier):
         yield Case("preempt:%s" % fn, {"kind": "preempt", "fn": fn})
     for lo in range(2, top + 1, 32):
         yield Case("dc:N=%d-%d" % (lo, min(lo + 30, top)), {"kind": "dc", "lo": lo, "hi": min(lo + 30, top)})
+    # ---- added with the soundness pass (ids above are unchanged) ------------------------------------------------
+    # inner scale resolved by the grid / underflowing inner-scale factor
+    for t in TUPLES_L0_RESOLVED:
+        for N in (2, 4, 6, 8):
+            yield Case("ft:N=%d:%s" % (N, _tag(t)), {"kind": "ft", "N": N, "t": t})
+            yield Case("sh:N=%d:%s" % (N, _tag(t)), {"kind": "sh", "N": N, "t": t})
+    for N in (6, 8):
+        yield Case("ft:N=%d:%s" % (N, _tag(TUPLE_UNDERFLOW)), {"kind": "ft", "N": N, "t": TUPLE_UNDERFLOW})
+        yield Case("sh:N=%d:%s" % (N, _tag(TUPLE_UNDERFLOW)), {"kind": "sh", "N": N, "t": TUPLE_UNDERFLOW})
+    # outer-scale ladder at fixed N, delta
+    for L0 in L0_LADDER_PLAIN + L0_LADDER_BOTH:
+        t = (0.1, 0.2, L0, 0.01)
+        yield Case("ft:N=6:%s" % _tag(t), {"kind": "ft", "N": 6, "t": t, "plain_only": True})
+        if L0 in L0_LADDER_BOTH:
+            yield Case("sh:N=6:%s" % _tag(t), {"kind": "sh", "N": 6, "t": t})
+    # the frequency-class clause with a caller-supplied transform, and the plain screen inside the sub-harmonic
+    # variant on a grid far above the sizes of the shbig cases
+    yield Case("hfbig:N=130:fft", {"kind": "hfbig", "N": 130, "fft": True})
+    yield Case("shhf:N=1024", {"kind": "shbig", "N": 1024, "guard_only": True})
 
 
 def setup(tier):
@@ -129,34 +202,55 @@ def _maxabs(a):
     return float(numpy.max(numpy.abs(a))) if a.size else 0.0
 
 
-class _Screen(object):
-    """screen as a function of the flat draw vector, through the seed seam"""
+def _dense_irregular(n, which=0):
+    """fixed dense vectors without zero entries and without any arithmetic regularity (constants: the first n outputs
+    of PCG64 with a fixed seed, mapped to +-[0.5, 1.5]).  Used where several draws feed one quantity and a periodic
+    pattern could cancel between them (met with the pattern ((7 k) mod 11, (5 k) mod 13): two draws 11*13*120 positions apart)."""
+    R = numpy.random.Generator(numpy.random.PCG64(20260927 + which))
+    u = R.random(n)
+    return numpy.where(u < 0.5, -(0.5 + 2.0 * u), 2.0 * u - 0.5)
 
-    def __init__(self, o, fn, N, t, r0=None):
+
+class _NotClaimed(Exception):
+    """the structure a clause needs could not be identified on the library under test"""
+
+
+class _Screen(object):
+    """screen as a function of the flat draw vector, through the seed seam; the number of normals the library
+    consumes is discovered by `probe()` (a call with an empty preset: all draws zero)"""
+
+    def __init__(self, o, fn, N, t, r0=None, extra=()):
         self.o, self.fn, self.N = o, fn, N
         self.d, self.r0, self.L0, self.l0 = t
         if r0 is not None:
             self.r0 = r0
-        self.calls_seen = None
+        self.extra = tuple(extra)
+        self.nd = None
+        self.requests = None
         self.bad = None
+        self.changed = None
 
-    def __call__(self, draws):
+    def _call(self, draws):
         g = SeqGenerator(draws)
-        y = self.fn(self.r0, self.N, self.d, self.L0, self.l0, seed=g)
+        y = self.fn(self.r0, self.N, self.d, self.L0, self.l0, *self.extra, seed=g)
         self.o.stat("lib_calls", 1)
         y = numpy.asarray(y)
         if self.bad is None and (y.shape != (self.N, self.N) or numpy.iscomplexobj(y)
                                  or not numpy.all(numpy.isfinite(y))):
             self.bad = "shape %s dtype %s" % (y.shape, y.dtype)
-        if self.calls_seen is None:
-            self.calls_seen = list(g.calls)
-        elif self.calls_seen != g.calls:
-            self.bad = self.bad or "draw requests changed between calls: %s" % (g.calls,)
+        return g, y
+
+    def probe(self):
+        g, y = self._call(())
+        self.nd = int(g.consumed)
+        self.requests = list(g.calls)
         return y
 
-
-def _total(calls):
-    return sum(int(numpy.prod(c)) if c else 1 for c in (calls or []))
+    def __call__(self, draws):
+        g, y = self._call(draws)
+        if self.nd is not None and g.consumed != self.nd and self.changed is None:
+            self.changed = "%d normals consumed, %d on the probe call (requests %s)" % (g.consumed, self.nd, g.calls)
+        return y
 
 
 def _operator(scr, ndraw):
@@ -170,21 +264,42 @@ def _pair_structure(C):
     return d[:, None] + d[None, :] - 2.0 * C
 
 
+def _seam_failure(e):
+    """an exception raised by the draw double itself (the library used another Generator method): the observation
+    seam of this check does not apply to that library"""
+    return isinstance(e, RuntimeError) and "SeqGenerator" in str(e)
+
+
 def evaluate(p):
     from aotools.turbulence import phasescreen as ps
     o = Out()
+    try:
+        return _evaluate(o, ps, p)
+    except _NotClaimed as e:
+        o.stat("%s_not_claimed" % p["kind"], 1)
+        o.note("not_claimed_reason", str(e))
+        return o
+    except RuntimeError as e:
+        if not _seam_failure(e):
+            raise
+        o.stat("draw_seam_not_claimed", 1)
+        o.note("not_claimed_reason", str(e))
+        return o
+
+
+def _evaluate(o, ps, p):
     if p["kind"] == "ladder":
         return _ladder_case(o, ps, p["N"])
     if p["kind"] == "dc":
         return _dc_case(o, ps, p["lo"], p["hi"])
     if p["kind"] == "shbig":
-        return _shbig_case(o, ps, p["N"])
+        return _shbig_case(o, ps, p["N"], p.get("guard_only", False))
     if p["kind"] == "intseed":
         return _intseed_case(o, ps, p["N"])
     if p["kind"] == "fftarg":
         return _fftarg_case(o, ps, p["N"])
     if p["kind"] == "hfbig":
-        return _hfbig_case(o, ps, p["N"])
+        return _hfbig_case(o, ps, p["N"], p.get("fft", False))
     if p["kind"] == "r0ladder":
         return _r0ladder_case(o, ps, p["fn"])
     if p["kind"] == "preempt":
@@ -192,88 +307,113 @@ def evaluate(p):
     N, t = p["N"], p["t"]
     delta, r0, L0, l0 = t
     n2 = N * N
+    cap = MAX_DRAW_FACTOR * (2 * n2) + 1024
     plain = _Screen(o, ps.ft_phase_screen, N, t)
-    T = _operator(plain, 2 * n2)
+    z = plain.probe()
+    nd = plain.nd
+    if p["kind"] == "ft":
+        # the number of normals is the library's business (request shapes, order and count are free); the unit
+        # vectors of what it consumes are a basis of the ensemble as long as it consumes the same number every time
+        o.check("draws_consumed", nd > 0, detail="no normal was requested from the injected Generator")
+    if nd == 0 or nd > cap:
+        o.stat("operator_not_claimed(draw_count=%d)" % nd, 1)
+        return o
+    T = _operator(plain, nd)
     Cref = psd.covariance_matrix(N, delta, r0, L0, l0)
     cs = float(numpy.max(numpy.diag(Cref)))
     ts = max(_maxabs(T), 1e-300)
     C = T @ T.T
     if p["kind"] == "ft":
-        # the basis is complete only if exactly 2 N^2 normals are consumed (request shapes are free)
-        o.check("draws_consumed", _total(plain.calls_seen) == 2 * n2,
-                detail="normal() requests %s, expected 2*N*N = %d values" % (plain.calls_seen, 2 * n2))
         o.check("real_finite_NxN", plain.bad is None, detail=plain.bad)
-        z = plain(numpy.zeros(2 * n2))
-        o.check("zero_draws_zero_screen", bool(numpy.all(z == 0.0)), measure=_maxabs(z), tol=0.0)
-        e, k = linear.superposition_error(plain, (2 * n2,), T, dtype=float)
+        # relative to the unit responses: exact zero today, ~1e-16 for a library that removes the mean afterwards
+        o.close("zero_draws_zero_screen", _maxabs(z) / ts if z.shape == (N, N) else float("inf"), TOL)
+        e, k = linear.superposition_error(plain, (nd,), T, dtype=float)
         o.close("linear_in_draws", e / (4.0 * ts), TOL)
         o.close("covariance_equals_discrete_vk_sum", _maxabs(C - Cref) / cs, TOL)
         dg = numpy.diag(C)
         o.close("variance_position_independent", float(dg.max() - dg.min()) / cs, TOL)
         o.close("zero_frequency_removed", _maxabs(T.sum(axis=0)) / (n2 * ts), TOL)
         for c in R0_FACTORS:
-            Tc = _operator(_Screen(o, ps.ft_phase_screen, N, t, r0=c * r0), 2 * n2)
-            o.close("r0_scaling_exact", _maxabs(Tc - c ** (-5.0 / 6.0) * T) / ts, TOL_SCALE, sub="c=%g" % c)
+            sc = _Screen(o, ps.ft_phase_screen, N, t, r0=c * r0)
+            sc.probe()
+            if sc.nd == nd:
+                # "for fixed draws": column by column
+                Tc = _operator(sc, nd)
+                o.close("r0_scaling_exact", _maxabs(Tc - c ** (-5.0 / 6.0) * T) / ts, TOL_SCALE, sub="c=%g" % c)
+            elif 0 < sc.nd <= cap:
+                # another number of draws for another r0: only the ensemble form of the law can be decided
+                Tc = _operator(sc, sc.nd)
+                o.close("r0_scaling_exact", _maxabs(Tc @ Tc.T - c ** (-5.0 / 3.0) * C) / (ts * ts), TOL_SCALE,
+                        sub="c=%g" % c)
+            else:
+                o.stat("r0_scaling_not_claimed", 1)
+        o.check("draws_consumed", plain.changed is None, detail=plain.changed)
         o.outcome(numpy.round(C / cs, 9))
         return o
 
     # ---------------------------------------------------------------- sub-harmonic variant
-    nd = 2 * n2 + 54
     sh = _Screen(o, ps.ft_sh_phase_screen, N, t)
-    Ts = _operator(sh, nd)
-    o.check("sh_draws_consumed", _total(sh.calls_seen) == nd,
-            detail="normal() requests %s, expected 2*N*N + 3*18 = %d values" % (sh.calls_seen, nd))
-    o.check("sh_real_finite_NxN", sh.bad is None, detail=sh.bad)
-    z = sh(numpy.zeros(nd))
-    o.check("sh_zero_draws_zero_screen", bool(numpy.all(z == 0.0)), measure=_maxabs(z), tol=0.0)
-    e, k = linear.superposition_error(sh, (nd,), Ts, dtype=float)
-    o.close("sh_linear_in_draws", e / (4.0 * max(_maxabs(Ts), 1e-300)), TOL)
-    if Ts.shape[1] != nd:
-        o.check("sh_high_frequency_part_identical", False, detail="operator shape %s" % (Ts.shape,))
+    z = sh.probe()
+    nds = sh.nd
+    o.check("sh_draws_consumed", nds > 0, detail="no normal was requested from the injected Generator")
+    if nds == 0 or nds > cap:
+        o.stat("operator_not_claimed(draw_count=%d)" % nds, 1)
         return o
-    o.close("sh_high_frequency_part_identical", _maxabs(Ts[:, :2 * n2] - T) / ts, TOL_SCALE)
+    Ts = _operator(sh, nds)
+    tss = max(_maxabs(Ts), 1e-300)
+    o.check("sh_real_finite_NxN", sh.bad is None, detail=sh.bad)
+    o.close("sh_zero_draws_zero_screen", _maxabs(z) / tss if z.shape == (N, N) else float("inf"), TOL)
+    e, k = linear.superposition_error(sh, (nds,), Ts, dtype=float)
+    o.close("sh_linear_in_draws", e / (4.0 * tss), TOL)
+    o.check("sh_draws_consumed", sh.changed is None, detail=sh.changed)
+    if Ts.shape != (n2, nds) or not numpy.all(numpy.isfinite(Ts)) or not numpy.all(numpy.isfinite(T)):
+        return o            # reported above (sh_real_finite_NxN / real_finite_NxN of the ft case)
     Cs = Ts @ Ts.T
     Dh, Ds = _pair_structure(C), _pair_structure(Cs)
     dmax = float(Dh.max())
+    if not (dmax > 0.0 and numpy.isfinite(dmax)):
+        # the plain screen's structure function vanishes in floating point (spectrum underflows): the comparisons
+        # below have no scale; the plain screen itself is judged by the ft case of the same parameters
+        o.stat("sh_structure_clauses_not_claimed(no_plain_structure)", 1)
+        return o
     o.close("sh_no_structure_value_decreases", float(numpy.max(Dh - Ds)) / dmax, 1e-12)
+    # 'adds low-frequency power': something is added (the unchanged library adds at least 1e-2 of max D somewhere
+    # on every configuration of the lattice; 1e-9 is seven orders below that and six above rounding)
+    added = float(numpy.max(Ds - Dh)) / dmax
+    o.check("sh_adds_low_frequency_power", added > 1e-9, measure=-added, tol=-1e-9,
+            detail="max over pixel pairs of D_sh - D_hi, relative to max D_hi: %.3g" % added)
     # pixel pair geometry
     y, x = numpy.divmod(numpy.arange(n2), N)
     dy, dx = y[:, None] - y[None, :], x[:, None] - x[None, :]
     sep = numpy.sqrt(dy ** 2 + dx ** 2)
-    if N * delta < L0:
-        if L0 > 1e6 * N * delta:
-            # outer scale astronomically larger than the screen: the analytic curve is its Kolmogorov limit
-            # 6.88 (r/r0)^(5/3), from which the von Karman curve differs by less than (r/L0)^(1/3) < 1e-2 relative
-            # (the reference's Bessel form loses all digits there)
-            Dvk = 6.88 * (sep * delta / r0) ** (5.0 / 3.0)
-        else:
-            Dvk = vk_cov.structure_function(sep * delta, r0, L0)
-        far = sep >= N / 4.0
-        gain = numpy.abs(Dh - Dvk) - numpy.abs(Ds - Dvk)       # must be > 0
-        worst = float(numpy.min(gain[far] / Dvk[far]))
-        i = int(numpy.argmin(numpy.where(far, gain / numpy.where(Dvk > 0, Dvk, 1.0), numpy.inf)))
-        a, b = divmod(i, n2)
-        o.check("sh_closer_to_analytic_at_large_separation", worst > 0.0, measure=-worst, tol=0.0,
-                detail="pixels %s-%s: D_hi %.6g D_sh %.6g D_vK %.6g" % (
-                    (int(y[a]), int(x[a])), (int(y[b]), int(x[b])), Dh[a, b], Ds[a, b], Dvk[a, b]),
-                n=int(far.sum()))
-        o.note("case_sh_min_relative_gain_far_pairs", worst)
+    if L0 > 1e6 * N * delta:
+        # outer scale astronomically larger than the screen: the analytic curve is its Kolmogorov limit
+        # 6.88 (r/r0)^(5/3), from which the von Karman curve differs by less than (r/L0)^(1/3) < 1e-2 relative
+        # (the reference's Bessel form loses all digits there)
+        Dvk = 6.88 * (sep * delta / r0) ** (5.0 / 3.0)
     else:
-        o.stat("sh_closer_clause_not_applicable(N*delta>=L0)", 1)
+        Dvk = vk_cov.structure_function(sep * delta, r0, L0)
+    far = sep >= N / 4.0
+    gain = numpy.abs(Dh - Dvk) - numpy.abs(Ds - Dvk)       # must be > 0
+    rel = numpy.where(far, gain / numpy.where(Dvk > 0, Dvk, 1.0), numpy.inf)
+    worst = float(numpy.min(rel))
+    i = int(numpy.argmin(rel))
+    a, b = divmod(i, n2)
+    o.check("sh_closer_to_analytic_at_large_separation", worst > 0.0, measure=-worst, tol=0.0,
+            detail="pixels %s-%s: D_hi %.6g D_sh %.6g D_vK %.6g" % (
+                (int(y[a]), int(x[a])), (int(y[b]), int(x[b])), Dh[a, b], Ds[a, b], Dvk[a, b]),
+            n=int(far.sum()))
+    o.note("case_sh_min_relative_gain_far_pairs", worst)
     # observations (not verdicts) -------------------------------------------------------------
     Dlo_ref = psd.subharmonic_structure_function(N, delta, r0, L0, l0, dy, dx)
     o.note("case_sh_added_structure_vs_Lane_Schmidt_rel",
            _maxabs((Ds - Dh) - Dlo_ref) / max(float(Dlo_ref.max()), 1e-300))
-    o.note("case_sh_low_part_spatial_mean_rel", _maxabs(Ts[:, 2 * n2:].mean(axis=0)) / max(_maxabs(Ts[:, 2 * n2:]), 1e-300))
-    if N == 4:
-        st = numpy.random.default_rng(12345).normal(size=2 * n2 + 54)
-        got = numpy.asarray(ps.ft_sh_phase_screen(r0, N, delta, L0, l0, seed=12345))
-        o.stat("lib_calls", 1)
-        rep = numpy.concatenate([st[:2 * n2], st[:54]])
-        ind = st
-        o.note("case_integer_seed_low_draws_repeat_high_draws",
-               bool(_maxabs(Ts @ rep - got.reshape(-1)) < 1e-9 * max(_maxabs(got), 1e-300)
-                    and not _maxabs(Ts @ ind - got.reshape(-1)) < 1e-9 * max(_maxabs(got), 1e-300)))
+    o.note("case_sh_columns_spatial_mean_rel", _maxabs(Ts.mean(axis=0)) / tss)
+    try:
+        w = numpy.linalg.eigvalsh(Cs - C)
+        o.note("case_sh_added_covariance_min_eigenvalue_rel", float(w.min()) / max(float(w.max()), 1e-300))
+    except Exception:
+        pass
     o.outcome(numpy.round(Cs / cs, 9))
     return o
 
@@ -283,18 +423,28 @@ def _ladder_case(o, ps, N):
     delta = 4.0 * L0 / N
     c = N // 2
     n2 = N * N
-    row = numpy.zeros((N, N))
+    g = SeqGenerator(())
+    ps.ft_phase_screen(r0, N, delta, L0, l0, seed=g)
+    nd = int(g.consumed)
+    if nd == 0 or nd > MAX_DRAW_FACTOR * 2 * n2 + 1024:
+        raise _NotClaimed("%d normals consumed" % nd)
+    # covariance of three pixels with every pixel (centre, a corner, a pixel on the last row)
+    pixels = [("", (c, c)), ("px=0,0", (0, 0)), ("px=last,3", (N - 1, 3))]
+    rows = [numpy.zeros((N, N)) for _ in pixels]
     diag = numpy.zeros((N, N))
-    draws = numpy.zeros(2 * n2)
-    for k in range(2 * n2):
+    draws = numpy.zeros(nd)
+    for k in range(nd):
         draws[k] = 1.0
         s = numpy.asarray(ps.ft_phase_screen(r0, N, delta, L0, l0, seed=SeqGenerator(draws)))
         draws[k] = 0.0
-        row += s[c, c] * s
+        for r_, (_, (a, b)) in zip(rows, pixels):
+            r_ += s[a, b] * s
         diag += s * s
-    o.stat("lib_calls", 2 * n2)
-    ref = psd.covariance_row(N, delta, r0, L0, l0, (c, c))
-    o.close("ladder_covariance_row", _maxabs(row - ref) / float(ref[c, c]), TOL, sub=None)
+    o.stat("lib_calls", nd + 1)
+    for r_, (sub, px) in zip(rows, pixels):
+        ref = psd.covariance_row(N, delta, r0, L0, l0, px)
+        o.close("ladder_covariance_row", _maxabs(r_ - ref) / float(ref[px]), TOL, sub=sub or None)
+    row = rows[0]
     D = diag[c, c] + diag - 2.0 * row
     off = numpy.arange(N) - c
     dy, dx = off[:, None], off[None, :]
@@ -314,26 +464,33 @@ def finalize(tier, results):
     o = Out()
     # observations aggregated over all cases (per-case notes are "last one wins" in the runner)
     def agg(key, fn):
-        v = [r.notes[key] for r in results.values() if key in r.notes]
-        return fn(v) if v else None
+        v = [r.notes[key] for r in results.values() if key in r.notes and r.notes[key] is not None]
+        try:
+            return fn(v) if v else None
+        except Exception:
+            return None
     o.note("obs_sh_added_structure_vs_Lane_Schmidt_weights_max_rel",
            agg("case_sh_added_structure_vs_Lane_Schmidt_rel", max))
-    o.note("obs_sh_low_part_spatial_mean_max_rel", agg("case_sh_low_part_spatial_mean_rel", max))
+    o.note("obs_shbig_added_structure_vs_Lane_Schmidt_weights_max_rel",
+           agg("case_shbig_added_structure_vs_Lane_Schmidt_rel", max))
+    o.note("obs_sh_columns_spatial_mean_max_rel", agg("case_sh_columns_spatial_mean_rel", max))
+    o.note("obs_sh_added_covariance_min_eigenvalue_rel", agg("case_sh_added_covariance_min_eigenvalue_rel", min))
     o.note("obs_sh_min_relative_gain_far_pairs", agg("case_sh_min_relative_gain_far_pairs", min))
-    o.note("obs_integer_seed_low_draws_repeat_first_54_high_draws",
-           agg("case_integer_seed_low_draws_repeat_high_draws", all))
+    o.note("obs_preemption_dependent_schedules", agg("case_preemption_dependent_schedules", sum))
     rungs = _ladder(tier)
     errs, fixed = [], []
     for N in rungs:
         r = results.get("ladder:N=%d" % N)
         if r is None or "case_ladder_err_fixed_offsets" not in r.notes:
-            return o          # filtered run (--only) or a rung that raised (reported as no_exception)
+            return o          # filtered run (--only), a rung that raised (reported as no_exception) or not claimed
         errs.append(float(r.notes["case_ladder_err_all_offsets"]))
         fixed.append(float(r.notes["case_ladder_err_fixed_offsets"]))
     o.note("obs_ladder_max_rel_error_all_pixel_offsets_by_N", dict(zip(map(str, rungs), errs)))
     o.note("ladder_max_rel_error_fixed_offsets_by_N", dict(zip(map(str, rungs), fixed)))
     # verdict: error at FIXED physical offsets (multiples of the coarsest pixel 4*L0/8); the error over all
-    # pixel offsets (dominated by the one-pixel separation, which shrinks with the pixel) is an observation
+    # pixel offsets (dominated by the one-pixel separation, which shrinks with the pixel) is an observation.
+    # Once ladder_covariance_row holds on every rung these numbers are those of the reference sum (0.587, 0.236,
+    # 0.082, 0.024, 0.0045): the bounds 0.05 / 0.02 are statements about the discretisation, with 2x / 4x room.
     for a, b, Na, Nb in zip(fixed[:-1], fixed[1:], rungs[:-1], rungs[1:]):
         o.check("ladder_error_non_increasing", b <= a, sub="N=%d->%d" % (Na, Nb),
                 measure=b - a, tol=0.0, detail="max relative error of D at fixed offsets: %.4g -> %.4g" % (a, b))
@@ -341,135 +498,220 @@ def finalize(tier, results):
     return o
 
 
-LEVEL_TEXT = ("Every even N in the bound (2..8 quick; 2..24 plain / 2..16 sub-harmonic thorough) x five "
-              "(delta, r0, L0, l0) tuples x both generators is enumerated; for each, all 2N^2 (+54) unit draw "
-              "vectors are injected, so the covariance identity, zero mean, constant variance and the exact "
-              "r0^(-5/6) law hold for the whole Gaussian ensemble and every pixel pair, not for sampled screens; "
-              "the refinement clause is decided on a ladder N = 8..64 (128 thorough).")
+LEVEL_TEXT = ("Every even N in the bound (2..8 quick; 2..24 plain / 2..16 sub-harmonic thorough) x the "
+              "(delta, r0, L0, l0) lattice x both generators is enumerated; for each, all unit draw vectors of the "
+              "normals the library consumes are injected, so the covariance identity, zero mean, constant variance "
+              "and the exact r0^(-5/6) law hold for the whole Gaussian ensemble and every pixel pair, not for sampled "
+              "screens; the refinement clause is decided on a ladder N = 8..64 (128 thorough); zero mean for every "
+              "even N up to 512 (1536), single frequency classes up to N = 1024 (2048), the sub-harmonic part up to "
+              "N = 256 (500), the ensemble over integer / None / SeedSequence seeds up to N = 32 (64), and the "
+              "FFT= argument at N = 4, 8, 130.")
 LEVEL_NOTE = ("Trusted: numpy matrix arithmetic, the PSD/covariance reference (mc/refmodels/psd.py, from the "
               "statement) and the closed-form von Karman structure function (mc/refmodels/vk_cov.py, self-tested). "
-              "Not covered: odd N (outside the property), the FFT= accelerator argument, N beyond the bound, "
-              "integer-seed coupling of the two generators in the sub-harmonic variant (observation only), the "
-              "exact sub-harmonic weights (the statement only requires added low-frequency power; their "
-              "agreement with the Lane/Schmidt scheme is recorded as an observation).")
+              "Not covered: odd N (outside the property), N beyond the bounds, non-float64 parameter types other than "
+              "those listed in the r0ladder cases, the exact sub-harmonic weights (the statement only requires added "
+              "low-frequency power that brings the structure function closer to the analytic one; their agreement "
+              "with the Lane/Schmidt scheme is recorded as an observation), re-entrancy under threads (the statement "
+              "does not promise it: the single-preemption interleavings of two screen generations are explored and "
+              "the number of schedules in which a screen depends on the other call is recorded as an observation, "
+              "stat preemption_dependence_observed).")
 
 
 def _dc_case(o, ps, lo, hi):
-    """'with the zero frequency removed', for every even N of the range: a unit draw on the zero-frequency
-    coefficient (real part, imaginary part) contributes nothing, and the screen of a dense draw vector has zero
-    spatial mean; a unit draw on the neighbouring coefficient does contribute (the probe is not vacuous).
+    """'with the zero frequency removed ... therefore the screen has zero mean', for every even N of the range and
+    five pixel sizes (the frequency grid is a function of N and delta): the screens of two dense draw vectors
+    without zero entries have zero spatial mean.  Whatever draw feeds the zero-frequency coefficient, it is excited
+    by both vectors; no position in the stream is assumed (the vectors are longer than what the library consumes
+    and their tail is simply not read).
     (Added after a seeded change left the DC term in for N = 98, 196, 206, ... only.)"""
-    from mc.env import SeqGenerator
     r0, L0, l0 = 0.2, 25.0, 0.01
     for N in range(lo, hi + 1, 2):
-        c = N // 2
         n2 = N * N
-        for delta in (0.1, 0.3, 0.02, 1.0, 4.2 / 128):       # the frequency grid is a function of N and delta
-
-            def screen(vec, delta=delta):
-                return numpy.asarray(ps.ft_phase_screen(r0, N, delta, L0, l0, seed=SeqGenerator(vec)))
-            for part, off in (("re", 0), ("im", n2)):
-                v = numpy.zeros(2 * n2)
-                v[off + c * N + c] = 1.0
-                s = screen(v)
+        worst, where, vac = 0.0, None, None
+        vecs = [_dense_irregular(4 * n2 + 1024, 0), _dense_irregular(4 * n2 + 1024, 1)]
+        for delta in (0.1, 0.3, 0.02, 1.0, 4.2 / 128):
+            for which in (0, 1):
+                g = SeqGenerator(vecs[which])
+                dense = numpy.asarray(ps.ft_phase_screen(r0, N, delta, L0, l0, seed=g), dtype=float)
                 o.stat("lib_calls", 1)
-                o.check("zero_frequency_draw_contributes_nothing", s.shape == (N, N) and bool(numpy.all(s == 0.0)),
-                        sub="N=%d:delta=%g:%s" % (N, delta, part), measure=_maxabs(s), tol=0.0)
-        delta = 0.1
-
-        def screen(vec):
-            return numpy.asarray(ps.ft_phase_screen(r0, N, delta, L0, l0, seed=SeqGenerator(vec)))
-        v = numpy.zeros(2 * n2)
-        v[c * N + (c + 1) % N] = 1.0
-        s1 = screen(v)
-        dense = screen(((numpy.arange(2 * n2) * 7) % 11 - 5.0) / 5.0)
-        o.stat("lib_calls", 2)
-        if N > 2:
-            o.check("neighbouring_draw_contributes", _maxabs(s1) > 0.0, sub="N=%d" % N)
-        scale = max(_maxabs(dense), 1e-300)
-        o.close("dense_screen_has_zero_mean", abs(float(dense.mean())) / scale, 1e-10, sub="N=%d" % N)
+                scale = _maxabs(dense)
+                if dense.shape != (N, N) or not scale > 0.0 or not numpy.isfinite(scale):
+                    vac = "delta=%g: screen of a dense draw vector has shape %s, max |.| = %r" % (delta, dense.shape, scale)
+                    continue
+                m = abs(float(dense.mean())) / scale
+                if m >= worst:
+                    worst, where = m, "delta=%g, dense vector %d" % (delta, which)
+        # measured <= 1e-16 on the unchanged library; a mean removed after the transform leaves ~1e-14
+        o.check("dense_screen_has_zero_mean", vac is None and worst <= 1e-10, sub="N=%d" % N, measure=worst, tol=1e-10,
+                detail=vac or where)
     o.stat("nontrivial", (hi - lo) // 2 + 1)
     return o
 
 
-def _hfbig_case(o, ps, N):
-    """Large grids, one frequency at a time.  The covariance of the statement is a sum of one term per grid
-    frequency, Phi(f) df^2 cos(2 pi f.(x - x')).  With the draw layout of the anchored mechanism (two N x N
-    normal arrays, real parts then imaginary parts, draw [i, j] feeding the coefficient of grid frequency [i, j])
-    the two draws of one frequency contribute t_re(x) t_re(x') + t_im(x) t_im(x'), which must be exactly that
-    frequency's term - on every pixel x, for three reference pixels x'.  Probed: the zero-frequency lines
-    (fx = 0, fy = 0), the Nyquist lines, the diagonal, and scattered interior frequencies.  The clause is claimed
-    only if the library still requests exactly that layout (otherwise: counted as not claimed)."""
-    from mc.env import SeqGenerator
+# ------------------------------------------------------------------------------------------------ hfbig
+def _plane_wave(col, N):
+    """(amplitude, q, c, resid): q = canonical representative of the frequency class {q, -q} (mod N) carrying the
+    response, c its complex amplitude (col = Re[c exp(2 pi i q.x / N)]; real cosine amplitude when q = -q), resid =
+    the part of the response outside the class, relative (2-norm)."""
+    amp = _maxabs(col)
+    if not amp > 0.0:
+        return 0.0, None, 0.0, 0.0
+    F = numpy.fft.fft2(col)
+    P = F.real ** 2 + F.imag ** 2
+    tot = float(P.sum())
+    q = tuple(int(v) for v in numpy.unravel_index(int(numpy.argmax(P)), P.shape))
+    mq = ((-q[0]) % N, (-q[1]) % N)
+    if mq < q:
+        q, mq = mq, q
+    c = F[q] / (N * N) if q == mq else 2.0 * F[q] / (N * N)
+    P[q] = 0.0
+    P[mq] = 0.0
+    resid = math.sqrt(float(P.sum()) / tot)
+    return amp, q, complex(c), resid
+
+
+def _hfbig_case(o, ps, N, fft=False):
+    """Large grids, one frequency class at a time.  The covariance of the statement is a sum of one term per grid
+    frequency, Phi(f) df^2 cos(2 pi f.(x - x')); f and -f (taken on the pixel grid, i.e. mod N) give the same
+    pattern, so the term of the class {f, -f} is W_c cos(2 pi f.(x - x')), W_c = sum of the weights in the class.
+    A set of unit draws is pushed through; the response of each must be a pure plane wave Re[c_m exp(2 pi i q.x/N)]
+    (checked on every pixel through its discrete transform), which identifies the class it feeds.  Two dense draw
+    vectors on all OTHER draws show that no unprobed draw excites a probed class.  The contribution of a class to the
+    covariance is then  sum_m Re[c_m e^(i th)] Re[c_m e^(i th')] = 1/2 Re[sum c_m^2 e^(i(th+th'))] + 1/2 sum |c_m|^2
+    cos(th - th'),  which is the statement's term for EVERY pixel pair iff  sum_m c_m^2 = 0  and  1/2 sum_m |c_m|^2
+    = W_c  (for a self-conjugate class: sum_m a_m^2 = W_c).  The probed positions are index [i, j] and its mirror
+    [-i, -j] in every N x N block of the stream, for the zero-frequency lines, the Nyquist lines, the diagonals and
+    scattered interior indices; where that does not complete a class, or a response is not a plane wave, nothing is
+    claimed."""
     delta, r0, L0, l0 = 0.1, 0.2, 25.0, 0.01
     n2 = N * N
     c = N // 2
-    g = SeqGenerator(numpy.zeros(2 * n2))
-    z = numpy.asarray(ps.ft_phase_screen(r0, N, delta, L0, l0, seed=g))
-    o.stat("lib_calls", 1)
-    if [tuple(x) if x else () for x in g.calls] != [(N, N), (N, N)]:
-        o.stat("hfbig_layout_changed_not_claimed", 1)
+    extra = (numpy.fft.ifft2,) if fft else ()
+
+    def screen(vec):
+        g = SeqGenerator(vec)
+        y = numpy.asarray(ps.ft_phase_screen(r0, N, delta, L0, l0, *extra, seed=g), dtype=float)
+        o.stat("lib_calls", 1)
+        return g, y
+    g, z = screen(())
+    nd = int(g.consumed)
+    if nd == 0 or nd % n2 or nd // n2 > 4 or z.shape != (N, N):
+        o.stat("hfbig_structure_not_identified_not_claimed", 1)
         o.note("hfbig_draw_requests", str(g.calls))
         return o
-    o.check("zero_draws_zero_screen", z.shape == (N, N) and bool(numpy.all(z == 0.0)))
+    blocks = nd // n2
     _, W = psd.grid_weights(N, delta, r0, L0, l0)
-    idx = set()
-    for k in (0, 1, 2, c - 3, c - 1, c + 1, c + 2, N - 2, N - 1):
-        idx.update([(c, k), (k, c), (0, k), (k, 0), (k, k), (k, N - 1 - k)])
-    idx.update([(7, 3), (N // 3, 2 * N // 3 + 1), (N - 5, c + 9), (c + 1, c + 1), (c - 1, c + 1)])
-    idx.discard((c, c))
-    refs = [(0, 0), (c, c), (N - 1, 3)]
-    r, s_ = numpy.indices((N, N))
-    worst = 0.0
     wmax = float(W.max())
-    for (i, j) in sorted(idx):
-        cols = []
-        for off in (0, n2):
-            v = numpy.zeros(2 * n2)
-            v[off + i * N + j] = 1.0
-            cols.append(numpy.asarray(ps.ft_phase_screen(r0, N, delta, L0, l0, seed=SeqGenerator(v)), dtype=float))
-        o.stat("lib_calls", 2)
-        if cols[0].shape != (N, N):
-            o.check("frequency_term_exact_on_large_grid", False, sub="i=%d:j=%d" % (i, j), detail="shape %s" % (cols[0].shape,))
+    idx = set()
+    ks = (0, 1, 2, c - 3, c - 1, c + 1, c + 2, N - 2, N - 1) if N < 1000 else (0, 1, c - 1, c + 2, N - 1)
+    for k in ks:
+        idx.update([(c, k), (k, c), (0, k), (k, 0), (k, k), (k, N - 1 - k)])
+    idx.update([(7, 3), (N // 3, 2 * N // 3 + 1), (N - 5, c + 9), (c + 1, c + 1), (c - 1, c + 1), (c, c)])
+    pos = set()
+    for (i, j) in idx:
+        for b in range(blocks):
+            pos.add(b * n2 + i * N + j)
+            pos.add(b * n2 + ((N - i) % N) * N + (N - j) % N)
+    pos = sorted(pos)
+    members = {}          # class -> list of complex amplitudes
+    probes = []
+    for k in pos:
+        v = numpy.zeros(nd)
+        v[k] = 1.0
+        _, col = screen(v)
+        if col.shape != (N, N) or not numpy.all(numpy.isfinite(col)):
+            o.check("frequency_term_exact_on_large_grid", False, sub="draw=%d" % k,
+                    detail="response to a unit draw: shape %s, finite %s" % (col.shape, bool(numpy.all(numpy.isfinite(col)))))
+            return o
+        probes.append((k,) + _plane_wave(col, N))
+    scale = max(p_[1] for p_ in probes)
+    o.close("zero_draws_zero_screen", _maxabs(z) / scale if scale > 0 else float("inf"), TOL)
+    if not scale > 0.0:
+        return o
+    for (k, amp, q, cm, resid) in probes:
+        if amp <= 1e-11 * scale:
+            # contributes nothing to any class (today: the zero-frequency draw, exactly 0; the rounding residue of a
+            # mean removed after the transform is ~1e-14); 1e-11 of the largest response is 1e-22 in the covariance
             continue
-        err = 0.0
-        for (a, b) in refs:
-            got = cols[0] * cols[0][a, b] + cols[1] * cols[1][a, b]
-            want = W[i, j] * numpy.cos(2.0 * numpy.pi * ((i - c) * (r - a) + (j - c) * (s_ - b)) / float(N))
-            err = max(err, float(numpy.max(numpy.abs(got - want))) / wmax)
+        if resid > 1e-10:
+            # not a plane wave: the library does not synthesise the screen one frequency per draw - not claimed
+            o.stat("hfbig_structure_not_identified_not_claimed", 1)
+            o.note("hfbig_non_plane_wave_response", {"draw": int(k), "residual": resid})
+            return o
+        members.setdefault(q, []).append(cm)
+    # completeness: no unprobed draw may excite a probed class
+    incomplete = set()
+    for which in (0, 1):
+        v = _dense_irregular(nd, which)
+        v[pos] = 0.0
+        _, R = screen(v)
+        F = numpy.fft.fft2(R) / n2
+        for q, cms in members.items():
+            own = math.sqrt(sum(abs(x) ** 2 for x in cms))
+            if not abs(F[q]) <= 1e-6 * own:
+                incomplete.add(q)
+    worst, claimed = 0.0, 0
+    for q in sorted(members):
+        if q in incomplete:
+            o.stat("hfbig_classes_not_claimed", 1)
+            continue
+        cms = numpy.array(members[q])
+        mq = ((-q[0]) % N, (-q[1]) % N)
+        wq = float(W[(q[0] + c) % N, (q[1] + c) % N])
+        if q == mq:
+            wc = wq
+            got_iso, got_aniso = float(numpy.sum(cms.real ** 2)), 0.0
+        else:
+            wc = wq + float(W[(mq[0] + c) % N, (mq[1] + c) % N])
+            got_iso, got_aniso = 0.5 * float(numpy.sum(numpy.abs(cms) ** 2)), 0.5 * abs(complex(numpy.sum(cms ** 2)))
+        # relative to the class's own weight (the zero-frequency class, weight 0: relative to the largest weight)
+        norm = wc if wc > 0.0 else wmax
+        err = max(abs(got_iso - wc), got_aniso) / norm
         worst = max(worst, err)
+        claimed += 1
         if not err <= 1e-9:
-            o.check("frequency_term_exact_on_large_grid", False, sub="i=%d:j=%d" % (i, j), measure=err, tol=1e-9,
-                    detail="frequency index (%d, %d) of an N=%d grid (centre %d)" % (i, j, N, c))
-    if worst <= 1e-9:
-        o.check("frequency_term_exact_on_large_grid", True, measure=worst, tol=1e-9, n=len(idx))
+            ky, kx = (q[0] + c) % N - c, (q[1] + c) % N - c
+            o.check("frequency_term_exact_on_large_grid", False, sub="ky=%d:kx=%d" % (ky, kx), measure=err, tol=1e-9,
+                    detail="frequency class +-(%d, %d) of an N=%d grid: summed contribution of its %d draws %.12g, "
+                           "anisotropic part %.3g, weight in the statement's sum %.12g" % (ky, kx, N, len(cms), got_iso, got_aniso, wc))
+    if claimed and worst <= 1e-9:
+        o.check("frequency_term_exact_on_large_grid", True, measure=worst, tol=1e-9, n=claimed)
+    o.stat("hfbig_classes_claimed", claimed)
     o.stat("nontrivial", 1)
     return o
 
 
 def _preempt_case(o, ps, fn):
-    """'a linear function of its own draws' while another screen of the same size is being generated: call B (other
-    draws, other r0) is run to completion at EVERY library line of call A (all two-thread schedules with one
-    preemption, mc/reentry.py); A's screen must be the screen of A's draws alone, B's that of B's"""
-    from mc.env import SeqGenerator
+    """OBSERVATION, not a verdict (the statement does not promise re-entrancy under threads): call B (other draws,
+    other r0) is run to completion at EVERY library line of call A (all two-thread schedules with one preemption,
+    mc/reentry.py); the number of schedules in which A's screen is not the screen of A's draws alone, or B's not that
+    of B's, is recorded."""
     from mc import reentry
     N, delta, L0, l0 = 8, 0.1, 25.0, 0.01
     f = ps.ft_phase_screen if fn == "ft" else ps.ft_sh_phase_screen
-    nd = 2 * N * N + (54 if fn == "ftsh" else 0)
-    za = ((numpy.arange(nd) * 7) % 11 - 5.0) / 5.0
-    zb = ((numpy.arange(nd) * 5) % 13 - 6.0) / 3.0
+    nlong = MAX_DRAW_FACTOR * 2 * N * N + 1024
+    za = ((numpy.arange(nlong) * 7) % 11 - 5.0) / 5.0
+    zb = ((numpy.arange(nlong) * 5) % 13 - 6.0) / 3.0
     A = lambda: numpy.asarray(f(0.2, N, delta, L0, l0, seed=SeqGenerator(za))).copy()
     n_bad = n = 0
-    for other in (ps.ft_phase_screen, ps.ft_sh_phase_screen):
-        B = lambda: numpy.asarray(other(0.1, N, delta, L0, l0, seed=SeqGenerator(zb[:2 * N * N + (54 if other is ps.ft_sh_phase_screen else 0)]))).copy()
-        ra, rb = A(), B()
-        where_bad = []
-        for k, where, xa, xb in reentry.explore(A, B):
-            n += 1
-            if not (numpy.array_equal(xa, ra) and numpy.array_equal(xb, rb)):
-                where_bad.append(where)
-        o.check("own_draws_only_when_interleaved_with_another_call", not where_bad, sub="B=%s" % other.__name__,
-                detail=None if not where_bad else "differs when B runs at %s" % ", ".join(sorted(set(where_bad))[:8]), n=max(n, 1))
+    try:
+        for other in (ps.ft_phase_screen, ps.ft_sh_phase_screen):
+            B = lambda: numpy.asarray(other(0.1, N, delta, L0, l0, seed=SeqGenerator(zb))).copy()
+            ra, rb = A(), B()
+            where_bad = []
+            for k, where, xa, xb in reentry.explore(A, B):
+                n += 1
+                if not (numpy.array_equal(xa, ra) and numpy.array_equal(xb, rb)):
+                    where_bad.append(where)
+            n_bad += len(where_bad)
+            if where_bad:
+                o.note("preemption_dependence_B=%s" % other.__name__,
+                       "differs when B runs at %s" % ", ".join(sorted(set(map(str, where_bad)))[:8]))
+    except Exception as e:                       # the tracer is the check's own instrumentation
+        o.stat("preempt_exploration_failed_not_claimed", 1)
+        o.note("preempt_exploration_error", repr(e)[:200])
+    o.stat("preemption_dependence_observed", n_bad)
+    o.note("case_preemption_dependent_schedules", n_bad)
     o.stat("schedules_explored", n)
     o.stat("lib_calls", 2 * n)
     o.stat("nontrivial", 1)
@@ -477,12 +719,12 @@ def _preempt_case(o, ps, fn):
 
 
 def _r0ladder_case(o, ps, fn):
-    """amplitude ~ r0^(-5/6) exactly, over nine decades of r0 (sub-millimetre to 100 m), same draws"""
-    from mc.env import SeqGenerator
+    """amplitude ~ r0^(-5/6) exactly, over nine decades of r0 (sub-millimetre to 100 m), same draws; the unit of
+    length; the type the parameters are passed in; two screens from one real Generator"""
     N, delta, L0, l0 = 8, 0.1, 25.0, 0.01
     f = ps.ft_phase_screen if fn == "ft" else ps.ft_sh_phase_screen
-    nd = 2 * N * N + (54 if fn == "ftsh" else 0)
-    vec = ((numpy.arange(nd) * 7) % 11 - 5.0) / 5.0
+    # longer than anything the library reads: the number of normals consumed is not assumed
+    vec = ((numpy.arange(MAX_DRAW_FACTOR * 2 * N * N + 1024) * 7) % 11 - 5.0) / 5.0
     base = numpy.asarray(f(0.2, N, delta, L0, l0, seed=SeqGenerator(vec)))
     for r0 in (2e-5, 1e-4, 5e-4, 1e-3, 0.01, 1.0, 12.0, 100.0, 1e4):
         got = numpy.asarray(f(r0, N, delta, L0, l0, seed=SeqGenerator(vec)))
@@ -495,86 +737,289 @@ def _r0ladder_case(o, ps, fn):
         got = numpy.asarray(f(0.2 * c, N, d, L0 * c, l0 * c, seed=SeqGenerator(vec)))
         o.close("unit_of_length_irrelevant", _maxabs(got - base) / max(_maxabs(base), 1e-300), 1e-10, sub="%s:delta=%g" % (fn, d))
     o.stat("lib_calls", 14)
+    # the same parameter VALUES in other types ("all r0, L0, l0, pixel sizes"): values exactly representable in
+    # every type used.  (float32 / float16 / uint8 parameters of ft_sh_phase_screen are left out: see the report
+    # of the soundness pass - the unchanged library evaluates part of the sub-harmonic sum in the narrow type.)
+    F = (0.25, 0.125, 32.0, 0.015625)            # r0, delta, L0, l0
+    I = (1, 2, 32, 1)
+    bF = numpy.asarray(f(F[0], N, F[1], F[2], F[3], seed=SeqGenerator(vec)))
+    bI = numpy.asarray(f(1.0, N, 2.0, 32.0, 1.0, seed=SeqGenerator(vec)))
+    variants = [("float64", F, bF, numpy.float64), ("0d-array", F, bF, lambda v: numpy.array(v, dtype=float)),
+                ("int", I, bI, int), ("int32", I, bI, numpy.int32), ("int64", I, bI, numpy.int64)]
+    if fn == "ft":
+        variants.append(("float32", F, bF, numpy.float32))
+    for name, P, b, conv in variants:
+        got = numpy.asarray(f(conv(P[0]), N, conv(P[1]), conv(P[2]), conv(P[3]), seed=SeqGenerator(vec)))
+        o.stat("lib_calls", 1)
+        o.close("parameter_type_irrelevant", _maxabs(got - b) / max(_maxabs(b), 1e-300) if got.shape == b.shape else float("inf"),
+                1e-10, sub="%s:%s" % (fn, name))
+    for name, conv in (("int32", numpy.int32), ("int64", numpy.int64)):
+        got = numpy.asarray(f(0.2, conv(N), delta, L0, l0, seed=SeqGenerator(vec)))
+        o.stat("lib_calls", 1)
+        o.close("parameter_type_irrelevant", _maxabs(got - base) / max(_maxabs(base), 1e-300) if got.shape == base.shape else float("inf"),
+                1e-10, sub="%s:N=%s" % (fn, name))
+    # a history with ONE real Generator: the second screen is another realisation (the stream moves on, the library
+    # does not re-seed from the generator it is handed)
+    R = numpy.random.Generator(numpy.random.PCG64(1))
+    s1 = numpy.asarray(f(0.2, N, delta, L0, l0, seed=R)).copy()
+    s2 = numpy.asarray(f(0.2, N, delta, L0, l0, seed=R)).copy()
+    o.stat("lib_calls", 2)
+    o.check("successive_screens_from_one_generator_differ", s1.shape == s2.shape and _maxabs(s1 - s2) > 1e-6 * _maxabs(s1),
+            sub=fn, detail="two calls with the same numpy Generator object returned the same screen")
     o.stat("nontrivial", 1)
     return o
 
 
-def _shbig_case(o, ps, N):
-    """Sub-harmonic part on large grids: with all high-frequency draws zero and ONE unit draw on a sub-harmonic
-    coefficient, the screen is that coefficient's plane wave minus its mean, on EVERY row and column:
-        Re[c exp(2 pi i (fx x + fy y))] - mean,  c = (1 or i) sqrt(PSD(f)) del_f,  del_f = 1/(3^p N delta),
-        (fx, fy) = (j-1, i-1) del_f,  x, y = (k - N/2) delta.
-    All 3 levels x 8 coefficients x (re, im) are probed.  (Added after a seeded change accumulated the
-    sub-harmonics in blocks of 128 rows and dropped the remainder rows for N > 128.)"""
-    from mc.env import SeqGenerator
+# ------------------------------------------------------------------------------------------------ shbig
+def _alignments(small, big, limit=16):
+    """ways of finding the request list `small` as a subsequence of the request list `big` (equal shapes)"""
+    out = []
+
+    def rec(i, j, acc):
+        if len(out) >= limit:
+            return
+        if i == len(small):
+            out.append(tuple(acc))
+            return
+        for k in range(j, len(big) - (len(small) - i) + 1):
+            if big[k] == small[i]:
+                rec(i + 1, k + 1, acc + [k])
+    rec(0, 0, [])
+    return out
+
+
+def _count(shape):
+    return int(numpy.prod(shape)) if shape else 1
+
+
+def _shbig_case(o, ps, N, guard_only=False):
+    """Sub-harmonic part on large grids, without a model of how the library arranges its draws.
+    (1) Structure: the request log of ft_phase_screen is located inside the request log of ft_sh_phase_screen; with a
+    dense vector on those positions and zeros elsewhere the variant must return the plain screen of the same draws
+    (1e-12) - this both identifies the remaining ('low') draws and shows, on this grid size, that the variant contains
+    the plain screen on every row.  If no alignment reproduces the plain screen nothing is claimed.
+    (2) Every low draw is pushed through alone; D_lo(x, x') = sum_k (t_k(x) - t_k(x'))^2 is the structure function the
+    variant ADDS (origin-, order- and rotation-free), for three reference pixels x' and every pixel x.  With the plain
+    screen's D_hi from the statement's Fourier sum, the variant must be closer to the analytic von Karman curve than
+    the plain screen on every pair at least N/4 pixels apart.  (Added after a seeded change accumulated the
+    sub-harmonics in blocks of 128 rows and dropped the remainder rows for N > 128: those rows gain nothing.)
+    The agreement of D_lo with the Lane/Schmidt weights is an observation."""
     delta, r0, L0, l0 = 0.05, 0.2, 40.0, 0.01
-    n2 = N * N
-    coords = (numpy.arange(N) - N / 2.0) * delta
-    x, y = numpy.meshgrid(coords, coords)
-    fm = 5.92 / l0 / (2 * numpy.pi)
-    worst = 0.0
-    for p_ in (1, 2, 3):
-        del_f = 1.0 / (3 ** p_ * N * delta)
-        for i in range(3):
-            for j in range(3):
-                if i == 1 and j == 1:
-                    continue
-                fx, fy = (j - 1) * del_f, (i - 1) * del_f
-                f = numpy.hypot(fx, fy)
-                psd_ = 0.023 * r0 ** (-5.0 / 3) * numpy.exp(-(f / fm) ** 2) / (f ** 2 + (1.0 / L0) ** 2) ** (11.0 / 6)
-                for part, c in (("re", 1.0), ("im", 1j)):
-                    vec = numpy.zeros(2 * n2 + 54)
-                    vec[2 * n2 + 18 * (p_ - 1) + (0 if part == "re" else 9) + 3 * i + j] = 1.0
-                    got = numpy.asarray(ps.ft_sh_phase_screen(r0, N, delta, L0, l0, seed=SeqGenerator(vec)))
-                    o.stat("lib_calls", 1)
-                    want = numpy.real(c * numpy.sqrt(psd_) * del_f * numpy.exp(2j * numpy.pi * (fx * x + fy * y)))
-                    want = want - want.mean()
-                    scale = float(numpy.max(numpy.abs(want)))
-                    err = float(numpy.max(numpy.abs(got - want))) / scale if got.shape == want.shape else float("inf")
-                    worst = max(worst, err)
-                    if not err <= 1e-9:
-                        rows = numpy.where(numpy.max(numpy.abs(got - want), axis=1) > 1e-9 * scale)[0] if got.shape == want.shape else []
-                        o.check("subharmonic_plane_wave_on_every_row", False, sub="p=%d:coef=%d%d:%s" % (p_, i, j, part),
-                                measure=err, tol=1e-9, detail={"rows_off": [int(r) for r in rows[:6]], "n_rows_off": int(len(rows))})
-    o.check("subharmonic_plane_wave_on_every_row", worst <= 1e-9, measure=worst, tol=1e-9, n=48) if worst <= 1e-9 else None
+    c = N // 2
+    gs = SeqGenerator(())
+    zs = numpy.asarray(ps.ft_sh_phase_screen(r0, N, delta, L0, l0, seed=gs))
+    gf = SeqGenerator(())
+    numpy.asarray(ps.ft_phase_screen(r0, N, delta, L0, l0, seed=gf))
+    o.stat("lib_calls", 2)
+    nds, ndf = int(gs.consumed), int(gf.consumed)
+    n_low = nds - ndf
+    if ndf == 0 or n_low < 0 or n_low > 512 or zs.shape != (N, N):
+        o.stat("shbig_structure_not_identified_not_claimed", 1)
+        o.note("shbig_draw_requests", {"sh": str(gs.calls)[:300], "ft": str(gf.calls)[:300]})
+        return o
+    starts = numpy.concatenate([[0], numpy.cumsum([_count(s) for s in gs.calls])]).astype(int)
+    zf = _dense_irregular(ndf, 0)
+    plain = numpy.asarray(ps.ft_phase_screen(r0, N, delta, L0, l0, seed=SeqGenerator(zf)), dtype=float)
+    o.stat("lib_calls", 1)
+    hf_pos = None
+    for al in _alignments(list(gf.calls), list(gs.calls)):
+        pos = numpy.concatenate([numpy.arange(starts[k], starts[k + 1]) for k in al]) if al else numpy.zeros(0, dtype=int)
+        if len(pos) != ndf:
+            continue
+        v = numpy.zeros(nds)
+        v[pos] = zf
+        got = numpy.asarray(ps.ft_sh_phase_screen(r0, N, delta, L0, l0, seed=SeqGenerator(v)), dtype=float)
+        o.stat("lib_calls", 1)
+        if got.shape == plain.shape and _maxabs(got - plain) <= 1e-12 * _maxabs(plain):
+            hf_pos = pos
+            break
+    if hf_pos is None:
+        o.stat("shbig_structure_not_identified_not_claimed", 1)
+        o.note("shbig_draw_requests", {"sh": str(gs.calls)[:300], "ft": str(gf.calls)[:300]})
+        return o
+    o.check("sh_contains_the_plain_screen_of_the_same_draws", True, measure=_maxabs(got - plain) / _maxabs(plain), tol=1e-12)
     o.stat("nontrivial", 1)
+    if guard_only:
+        return o
+    low = numpy.setdiff1d(numpy.arange(nds), hf_pos)
+    refs = [(0, 0), (c, c), (N - 1, 3)]
+    Dlo = [numpy.zeros((N, N)) for _ in refs]
+    for k in low:
+        v = numpy.zeros(nds)
+        v[k] = 1.0
+        t = numpy.asarray(ps.ft_sh_phase_screen(r0, N, delta, L0, l0, seed=SeqGenerator(v)), dtype=float)
+        o.stat("lib_calls", 1)
+        if t.shape != (N, N) or not numpy.all(numpy.isfinite(t)):
+            o.check("sh_real_finite_NxN", False, sub="draw=%d" % k, detail="response to a unit low-frequency draw: shape %s" % (t.shape,))
+            return o
+        for D, (a, b) in zip(Dlo, refs):
+            D += (t - t[a, b]) ** 2
+    Cof = psd.covariance_by_offset(N, delta, r0, L0, l0)
+    yy, xx = numpy.indices((N, N))
+    ls = 0.0
+    for D, (a, b) in zip(Dlo, refs):
+        dy, dx = yy - a, xx - b
+        Dh = 2.0 * (Cof[0, 0] - Cof[dy % N, dx % N])
+        sep = numpy.sqrt(dy ** 2 + dx ** 2)
+        Dvk = vk_cov.structure_function(sep * delta, r0, L0)
+        far = sep >= N / 4.0
+        gain = numpy.abs(Dh - Dvk) - numpy.abs(Dh + D - Dvk)          # must be > 0
+        rel = numpy.where(far, gain / numpy.where(Dvk > 0, Dvk, 1.0), numpy.inf)
+        worst = float(numpy.min(rel))
+        i, j = numpy.unravel_index(int(numpy.argmin(rel)), rel.shape)
+        # the unchanged library gains >= 0.05 D_vK on every far pair of these grids
+        o.check("sh_closer_to_analytic_at_large_separation", worst > 0.0, sub="px=%d,%d" % (a, b), measure=-worst, tol=0.0,
+                detail="pixels (%d, %d)-(%d, %d): D_hi %.6g added %.6g D_vK %.6g" % (a, b, i, j, Dh[i, j], D[i, j], Dvk[i, j]),
+                n=int(far.sum()))
+        ref = psd.subharmonic_structure_function(N, delta, r0, L0, l0, dy, dx)
+        ls = max(ls, _maxabs(D - ref) / max(float(ref.max()), 1e-300))
+    o.note("case_shbig_added_structure_vs_Lane_Schmidt_rel", ls)
+    o.stat("low_frequency_draws_probed", len(low))
     return o
+
+
+# ------------------------------------------------------------------------------------------------ intseed
+class _SeedModel(object):
+    """Model of numpy.random.default_rng for seeds that are not Generators.  Seed material is reduced to
+    (entropy, spawn key): default_rng(n) and default_rng(SeedSequence(n)) are the same stream, the children of
+    SeedSequence.spawn differ in their spawn key, every call with None draws fresh entropy.  Equal material replays
+    the same stretch of the stream z, distinct material gets disjoint stretches.  A first (discovery) execution with
+    all draws zero fixes how long the stretch of each material is."""
+
+    def __init__(self):
+        self.length = {}          # key -> normals consumed by one generator of that material (max)
+        self.order = []
+        self.offset = None
+        self.unknown = 0
+        self.unmodelled = 0
+
+    def key(self, seed, none_count):
+        SS = numpy.random.SeedSequence
+        if seed is None:
+            return ("none", none_count)
+        if isinstance(seed, SS):
+            ent = seed.entropy
+            ent = tuple(int(e) for e in ent) if numpy.iterable(ent) else (None if ent is None else int(ent))
+            return ("ss", ent, tuple(int(k) for k in seed.spawn_key))
+        if isinstance(seed, (int, numpy.integer)) and not isinstance(seed, bool):
+            return ("ss", int(seed), ())
+        if numpy.iterable(seed):
+            try:
+                return ("ss", tuple(int(e) for e in seed), ())
+            except Exception:
+                return None
+        return None
+
+    def run(self, fn, args, seed, z):
+        """one library call with `seed` under the model; z = None: discovery"""
+        real = numpy.random.default_rng
+        made = []
+        state = {"none": 0}
+
+        def fake(s=None, *a, **k):
+            if isinstance(s, numpy.random.Generator):
+                return s
+            if s is None:
+                state["none"] += 1
+            key = self.key(s, state["none"])
+            if key is None:
+                self.unmodelled += 1           # a BitGenerator, ...: outside the model
+                return real(s, *a, **k)
+            if z is None:
+                g = SeqGenerator(())
+            elif key in self.offset:
+                off = self.offset[key]
+                g = SeqGenerator(z[off:off + self.length[key]])
+            else:
+                self.unknown += 1              # material that the discovery execution did not see
+                g = SeqGenerator(())
+            made.append((key, g))
+            return g
+        numpy.random.default_rng = fake
+        try:
+            y = numpy.asarray(fn(*args, seed=seed), dtype=float)
+        finally:
+            numpy.random.default_rng = real
+        if z is None:
+            for key, g in made:
+                if key not in self.length:
+                    self.order.append(key)
+                self.length[key] = max(self.length.get(key, 0), int(g.consumed))
+        return y
+
+    def freeze(self):
+        self.offset, n = {}, 0
+        for key in self.order:
+            self.offset[key] = n
+            n += self.length[key]
+        return n
 
 
 def _intseed_case(o, ps, N):
-    """The ensemble over INTEGER seeds.  With an integer seed every numpy.random.default_rng(seed) call the
-    library makes restarts the same stream z of independent unit normals; that is modelled exactly by making
-    default_rng return, for a non-Generator argument, a generator that replays z from its beginning.  The screen
-    is then a linear function of z, its complete operator is extracted from the unit vectors of z, and the
-    exact covariance of the integer-seeded ensemble must equal that of the ensemble over injected Generator
-    draws (which the other cases compare with the discretised von Karman sum): a seed only names a realisation,
-    it must not change the statistics.  Plain and sub-harmonic screens."""
-    from mc.env import SeqGenerator
+    """The ensemble over seeds that are not Generators (an integer, None, a SeedSequence).  numpy.random.default_rng
+    is replaced by a model (see _SeedModel) in which the screen is a linear function of a stream z of independent
+    unit normals; its complete operator is extracted from the unit vectors of z, and the exact covariance of the
+    seeded ensemble must equal that of the ensemble over injected Generator draws (which the other cases compare
+    with the discretised von Karman sum): a seed only names a realisation, it must not change the statistics.
+    Plain and sub-harmonic screens.  If the library does not go through numpy.random.default_rng at call time, or
+    uses randomness outside the model, nothing is claimed."""
     delta, r0, L0, l0 = 0.1, 0.2, 5.0, 0.01
     n2 = N * N
-
-    def with_int_seed(fn, z):
-        real = numpy.random.default_rng
-
-        def fake(seed=None):
-            if isinstance(seed, numpy.random.Generator):
-                return seed
-            return SeqGenerator(z)
-        numpy.random.default_rng = fake
-        try:
-            return numpy.asarray(fn(r0, N, delta, L0, l0, seed=4242)).ravel()
-        finally:
-            numpy.random.default_rng = real
-
-    for name, fn, nz in (("plain", ps.ft_phase_screen, 2 * n2), ("subharmonic", ps.ft_sh_phase_screen, 2 * n2 + 54)):
-        eye = numpy.eye(nz)
-        T_int = numpy.array([with_int_seed(fn, eye[k]) for k in range(nz)]).T
-        T_gen = numpy.array([numpy.asarray(fn(r0, N, delta, L0, l0, seed=SeqGenerator(eye[k]))).ravel() for k in range(nz)]).T
-        o.stat("lib_calls", 2 * nz)
-        C_int, C_gen = T_int @ T_int.T, T_gen @ T_gen.T
+    seeds = [("", 4242)]
+    if N <= 8:
+        seeds += [(":seed=None", None), (":seed=0", 0), (":seed=SeedSequence(5)", "ss5")]
+    for name, fn in (("plain", ps.ft_phase_screen), ("subharmonic", ps.ft_sh_phase_screen)):
+        args = (r0, N, delta, L0, l0)
+        g = SeqGenerator(())
+        fn(*args, seed=g)
+        nd = int(g.consumed)
+        o.stat("lib_calls", 1)
+        if nd == 0 or nd > MAX_DRAW_FACTOR * 2 * n2 + 1024:
+            o.stat("intseed_not_claimed", 1)
+            continue
+        eye = numpy.eye(nd)
+        T_gen = numpy.array([numpy.asarray(fn(*args, seed=SeqGenerator(eye[k])), dtype=float).ravel() for k in range(nd)]).T
+        o.stat("lib_calls", nd)
+        C_gen = T_gen @ T_gen.T
         scale = float(numpy.max(numpy.abs(C_gen)))
-        o.close("integer_seeded_ensemble_has_the_same_covariance", _maxabs(C_int - C_gen) / scale, 1e-10, sub=name,
-                detail="exact covariance over all draws of an integer-seeded stream vs over injected Generator draws")
+        tg = _maxabs(T_gen)
+        for tag, seed in seeds:
+            mk = (lambda: numpy.random.SeedSequence(5)) if seed == "ss5" else (lambda s=seed: s)
+            model = _SeedModel()
+            try:
+                y0 = model.run(fn, args, mk(), None)
+                nz = model.freeze()
+                o.stat("lib_calls", 1)
+                # the seam must carry all the randomness: a replayed generator was consumed, and with every replayed
+                # draw zero the screen is zero
+                if (nz == 0 or model.unmodelled or y0.shape != (N, N) or not numpy.all(numpy.isfinite(y0))
+                        or _maxabs(y0) > 1e-10 * tg or nz > MAX_DRAW_FACTOR * 2 * n2 + 1024):
+                    o.stat("intseed_not_claimed", 1)
+                    o.note("intseed_not_claimed_reason", "%s%s: %d normals through numpy.random.default_rng, %d generators "
+                           "outside the model, zero-stream screen max %.3g" % (name, tag, nz, model.unmodelled, _maxabs(y0)))
+                    continue
+                eyez = numpy.eye(nz)
+                T_int = numpy.array([model.run(fn, args, mk(), eyez[k]).ravel() for k in range(nz)]).T
+                o.stat("lib_calls", nz)
+            except RuntimeError as e:
+                if not _seam_failure(e):
+                    raise
+                o.stat("intseed_not_claimed", 1)
+                continue
+            except (TypeError, ValueError) as e:
+                # the documented seed types are int and None; a library that refuses a SeedSequence is within its rights
+                if seed != "ss5":
+                    raise
+                o.stat("intseed_not_claimed", 1)
+                o.note("intseed_not_claimed_reason", "%s%s: %s" % (name, tag, repr(e)[:120]))
+                continue
+            if model.unknown or model.unmodelled or T_int.shape[0] != n2:
+                o.stat("intseed_not_claimed", 1)
+                o.note("intseed_not_claimed_reason", "%s%s: seed material changes between executions" % (name, tag))
+                continue
+            C_int = T_int @ T_int.T
+            o.close("integer_seeded_ensemble_has_the_same_covariance", _maxabs(C_int - C_gen) / scale, 1e-10, sub=name + tag,
+                    detail="exact covariance over all draws of the seeded streams vs over injected Generator draws")
     o.stat("nontrivial", 1)
     return o
 
@@ -582,25 +1027,33 @@ def _intseed_case(o, ps, N):
 def _fftarg_case(o, ps, N):
     """FFT=<inverse transform callable>: the optional accelerated-FFT argument takes an object that is called on
     the shifted spectrum in place of numpy's inverse transform; with numpy.fft.ifft2 itself (and with a wrapper
-    of it) every unit draw must give the same screen as the default path, for the plain and the sub-harmonic
-    generator (even N)."""
-    from mc.env import SeqGenerator
+    of it) the ensemble covariance (from all unit draws) must be that of the default path, for the plain and the
+    sub-harmonic generator (even N)."""
     delta, r0, L0, l0 = 0.1, 0.2, 25.0, 0.01
+    t = (delta, r0, L0, l0)
     n2 = N * N
+    cap = MAX_DRAW_FACTOR * 2 * n2 + 1024
 
     class Wrapped(object):
         def __call__(self, a):
             return numpy.fft.ifft2(a)
-    for name, fn, nz in (("plain", ps.ft_phase_screen, 2 * n2), ("subharmonic", ps.ft_sh_phase_screen, 2 * n2 + 54)):
+    for name, fn in (("plain", ps.ft_phase_screen), ("subharmonic", ps.ft_sh_phase_screen)):
+        base = _Screen(o, fn, N, t)
+        base.probe()
+        if base.nd == 0 or base.nd > cap:
+            o.stat("fftarg_not_claimed", 1)
+            continue
+        Tb = _operator(base, base.nd)
+        Cb = Tb @ Tb.T
         worst = 0.0
-        for k in range(nz):
-            v = numpy.zeros(nz)
-            v[k] = 1.0
-            base = numpy.asarray(fn(r0, N, delta, L0, l0, seed=SeqGenerator(v)))
-            for fft in (numpy.fft.ifft2, Wrapped()):
-                got = numpy.asarray(fn(r0, N, delta, L0, l0, fft, seed=SeqGenerator(v)))
-                worst = max(worst, _maxabs(got - base) / max(_maxabs(base), 1e-300) if got.shape == base.shape else float("inf"))
-        o.stat("lib_calls", 3 * nz)
+        for fft in (numpy.fft.ifft2, Wrapped()):
+            s = _Screen(o, fn, N, t, extra=(fft,))
+            s.probe()
+            if s.nd == 0 or s.nd > cap:
+                o.stat("fftarg_not_claimed", 1)
+                continue
+            Tf = _operator(s, s.nd)
+            worst = max(worst, _maxabs(Tf @ Tf.T - Cb) / max(_maxabs(Cb), 1e-300) if Tf.shape[0] == Tb.shape[0] else float("inf"))
         o.close("caller_supplied_fft_gives_the_same_screen", worst, 1e-12, sub=name)
     o.stat("nontrivial", 1)
     return o
